@@ -573,6 +573,303 @@ def finish(ctx, case, fails, surface, exercised, txn=None):
 
 
 # ------------------------------------------------------------------------------------------------
+
+# ------------------------------------------------------------------------------------------------
+# immutability after write histories (delegations created / removed above existing names, NS at / above / below
+# cuts, whole-node deletes): every node and rdataset object reachable from every retained version through every
+# public route must be immutable, and nothing done through those routes may change what an open reader sees
+# ------------------------------------------------------------------------------------------------
+TREE = ["@", "sub", "a.sub", "b.a.sub", "c.b.a.sub", "x.sub", "other", "y.other", "z.y.other", "text", "ns1"]
+TREE_NAMES = [dns.name.empty if t == "@" else dns.name.from_text(t, None) for t in TREE]
+
+
+def apply_wop(txn, op):
+    kind, i = op[0], op[1]
+    name = TREE_NAMES[i]
+    if kind == "ns":
+        txn.replace(name, dns.rdataset.from_text("IN", "NS", 300, f"ns{op[2] % 3}.sub.example."))
+    elif kind == "delns":
+        txn.delete(name, "NS")
+    elif kind == "delnode":
+        txn.delete(name)
+    elif kind == "txt":
+        txn.replace(name, dns.rdataset.from_text("IN", "TXT", 60, f'"t{op[2]}"'))
+    elif kind == "a":
+        txn.add(name, dns.rdataset.from_text("IN", "A", 30, "10.1.%d.%d" % (op[2] // 250 % 250, op[2] % 250)))
+    elif kind == "deltxt":
+        txn.delete(name, "TXT")
+    else:
+        raise ValueError(op)
+
+
+SHORT_POOL = None
+
+
+def short_pool(zone):
+    rd = dns.rdata.from_text("IN", "TXT", '"zz"')
+    other = dns.rdataset.from_text("IN", "TXT", 5, '"zz"')
+    mx = dns.rdatatype.MX
+    return [(), (rd,), (rd, 5), (other,), (0,), (5,), (IN, mx), (IN, mx, dns.rdatatype.NONE, True),
+            (IN, dns.rdatatype.AAAA, dns.rdatatype.NONE, True)]
+
+
+def routes(zone, readers):
+    """(route label, owner text, object) for every node / rdataset object a public route hands out for any retained
+    version.  Routes that return fresh copies by design (find_rrset, get_rrset) are not snapshot objects."""
+    out = []
+
+    def node_routes(label, name, node):
+        if node is None:
+            return
+        out.append((label, name.to_text(), node))
+        rdss = getattr(node, "rdatasets", ())
+        for rds in rdss:
+            out.append((label + " -> .rdatasets[]", name.to_text(), rds))
+        for rds in node:
+            out.append((label + " -> iter(node)", name.to_text(), rds))
+
+    names = list(zone.keys())
+    for name in names:
+        node_routes("zone.get_node()", name, zone.get_node(name))
+        node_routes("zone.find_node()", name, zone.find_node(name))
+        node_routes("zone[name]", name, zone[name])
+        node_routes("zone.get()", name, zone.get(name))
+        node_routes("zone.nodes[name]", name, zone.nodes[name])
+    for name, node in zone.items():
+        node_routes("zone.items()", name, node)
+    for name, node in zip(names, zone.values()):
+        node_routes("zone.values()", name, node)
+    for name, node in zone.nodes.items():
+        node_routes("zone.nodes.items()", name, node)
+    for name, rds in zone.iterate_rdatasets():
+        out.append(("zone.iterate_rdatasets()", name.to_text(), rds))
+    for name in names:
+        for rds in list(zone.get_node(name)):
+            out.append(("zone.get_rdataset()", name.to_text(), zone.get_rdataset(name, rds.rdtype, rds.covers)))
+            out.append(("zone.find_rdataset()", name.to_text(), zone.find_rdataset(name, rds.rdtype, rds.covers)))
+    for v in zone._versions:
+        for name, node in v.nodes.items():
+            node_routes(f"zone._versions[id={v.id}].nodes.items()", name, node)
+            node_routes(f"version(id={v.id}).get_node()", name, v.get_node(name))
+            node_routes(f"version(id={v.id}).nodes.get()", name, v.nodes.get(name))
+    for h, txn in readers.items():
+        v = txn.version
+        for name, node in v.nodes.items():
+            node_routes(f"reader{h}.version.nodes.items()", name, node)
+            node_routes(f"reader{h}.version.nodes[name]", name, v.nodes[name])
+        for name in list(txn.iterate_names()):
+            node_routes(f"reader{h}.get_node()", name, txn.get_node(name))
+        for name, rds in txn.iterate_rdatasets():
+            out.append((f"reader{h}.iterate_rdatasets()", name.to_text(), rds))
+            out.append((f"reader{h}.get()", name.to_text(), txn.get(name, rds.rdtype, rds.covers)))
+    return out
+
+
+MUT_CACHE = {}
+
+
+def mutator_methods(o, zone, pool):
+    """names of the public callables of type(o) that change a mutable twin of `o` for some argument tuple; computed
+    from the class (dir) once per class and run, on the first instance met.  Without a twin: every candidate."""
+    t = type(o)
+    if t not in MUT_CACHE:
+        names = []
+        probe = mutable_twin(o, zone)
+        for m in candidate_methods(o):
+            if probe is None:
+                names.append(m)
+                continue
+            if not hasattr(probe[0], m):
+                continue
+            for args in own_args(o) + pool:
+                twin, dfn = mutable_twin(o, zone)
+                d0 = dfn(twin)
+                try:
+                    getattr(twin, m)(*fresh_args(args))
+                except Exception:  # noqa: BLE001
+                    pass
+                if dfn(twin) != d0:
+                    names.append(m)
+                    break
+        MUT_CACHE[t] = names
+    return MUT_CACHE[t]
+
+
+def attack(o, zone, pool, changed_fn):
+    """call every mutator of `o` (methods first, then attribute stores / deletes); returns (calls, problem) where
+    problem is None or (what, clause) for the first call that did not raise although it mutates a mutable twin of
+    the object, or after which the snapshots differ"""
+    calls = 0
+    for m in mutator_methods(o, zone, pool):
+        for args in own_args(o) + pool:
+            try:
+                getattr(o, m)(*fresh_args(args))
+                raised = False
+            except Exception:  # noqa: BLE001
+                raised = True
+            calls += 1
+            if not raised:
+                if changed_fn():
+                    return calls, (f"{m}{fmt_args(args)}", "changed")
+                tw = mutable_twin(o, zone)
+                if tw is not None:
+                    twin, dfn = tw
+                    d0 = dfn(twin)
+                    try:
+                        getattr(twin, m)(*fresh_args(args))
+                    except Exception:  # noqa: BLE001
+                        pass
+                    if dfn(twin) != d0:
+                        return calls, (f"{m}{fmt_args(args)}", "no-raise")
+    if changed_fn():
+        return calls, ("(a mutator call that raised)", "changed")
+    for a in public_attrs(o):
+        for kind in ("set", "del"):
+            try:
+                if kind == "set":
+                    setattr(o, a, None)
+                else:
+                    delattr(o, a)
+                raised = False
+            except Exception:  # noqa: BLE001
+                raised = True
+            calls += 1
+            if not raised:
+                return calls, (f"{kind}attr:{a}", "changed" if changed_fn() else "no-raise")
+    return calls, None
+
+
+def fmt_args(args):
+    def one(a):
+        if isinstance(a, dns.rdataset.Rdataset):
+            return f"<rdataset {dns.rdatatype.to_text(a.rdtype)} {[rd.to_text() for rd in a]}>"
+        if isinstance(a, dns.rdata.Rdata):
+            return f"<rdata {a.to_text()}>"
+        return repr(a)
+
+    return "(" + ", ".join(one(a) for a in args) + ")"
+
+
+def eval_immhist(ctx: Ctx, case: dict):
+    zk = case["zone"]
+    z = ZONES[zk](ORIGIN)
+    if case.get("keep_all", True):
+        z.set_max_versions(None)
+    readers = {}
+    fails = []
+    calls = 0
+    objs = 0
+    flips = 0
+    for ti, ops in enumerate(case["txns"]):
+        with z.writer(ti == 0) as txn:
+            if ti == 0:
+                txn.replace(dns.name.empty, dns.rdataset.from_text("IN", "SOA", 60, "ns1 host 1 1 1 1 1"))
+                txn.replace(dns.name.empty, dns.rdataset.from_text("IN", "NS", 60, "ns1"))
+            for op in ops:
+                try:
+                    apply_wop(txn, op)
+                except (KeyError, ValueError, dns.exception.DNSException):
+                    ctx.count("immhist.writer-op-refused")  # e.g. the C10 defects; not this property's subject
+        if ti in case.get("readers_at", []):
+            readers[ti] = z.reader()
+    # the deep dumps every mutator attempt is measured against
+    def snap():
+        return ([dump_version(v) for v in z._versions], {h: dump_txn(t) for h, t in readers.items()},
+                [[(n.to_text(), int(getattr(nd, "flags", 0) or 0)) for n, nd in v.nodes.items()] for v in z._versions])
+
+    base = snap()
+
+    def changed():
+        try:
+            return snap() != base
+        except Exception:  # noqa: BLE001
+            return True
+
+    pool = short_pool(z)
+    seen = set()
+    for label, owner, o in routes(z, readers):
+        if id(o) in seen:
+            continue
+        seen.add(id(o))
+        objs += 1
+        if isinstance(o, dns.node.Node):
+            if getattr(o, "flags", 0) and int(o.flags) & 4:
+                flips += 1
+            if not o.is_immutable():
+                fails.append((f"C11/{zk}/immutability/{type(o).__name__}.is_immutable/false",
+                              f"{label} for {owner}: a {type(o).__name__} inside a committed version says is_immutable() == False"))
+        n, problem = attack(o, z, pool, changed)
+        calls += n
+        if problem is not None:
+            what, clause = problem
+            extra = ""
+            if clause == "changed":
+                try:
+                    now = snap()
+                    who = [h for h in readers if now[1].get(h) != base[1].get(h)]
+                except Exception:  # noqa: BLE001
+                    who = list(readers)
+                extra = "; the deep dump of the retained versions changed" + (f" and open reader(s) {who} now observe different content" if who else "")
+            fails.append((f"C11/{zk}/immutability/{type(o).__name__}.{what.split('(')[0]}/{clause}",
+                          f"{label} for {owner} ({type(o).__name__}): {what} {'did not raise' if clause == 'no-raise' else 'did not raise / changed the snapshot'}{extra}"))
+            break  # the snapshot is damaged from here on: one concrete failing call per history
+    for t in readers.values():
+        try:
+            t.rollback()
+        except Exception:  # noqa: BLE001
+            pass
+    ctx.count(f"immhist.{zk}.objects", objs)
+    ctx.count(f"immhist.{zk}.calls", calls)
+    ctx.count(f"immhist.{zk}.glue-flagged-nodes", flips)
+    seen_sig = set()
+    for sig, what in fails:
+        if sig not in seen_sig:
+            seen_sig.add(sig)
+            ctx.fail(sig, what, {"kind": "immhist", "case": case})
+    return fails
+
+
+def gen_immhist(rng, zk):
+    ntx = rng.range(2, 5)
+    txns = []
+    # first (replacement) transaction: populate most of the tree, so later cuts appear *above existing names*
+    first = []
+    for i in range(1, len(TREE)):
+        if rng.chance(3, 4):
+            first.append(["txt" if rng.chance(1, 2) else "a", i, rng.below(1000)])
+    if rng.chance(1, 3):
+        first.append(["ns", rng.choice([1, 2, 6, 7]), rng.below(9)])
+    txns.append(first)
+    cuts = [1, 1, 2, 3, 6, 7, 0]
+    for _ in range(ntx - 1):
+        ops = []
+        for _ in range(rng.choice([1, 1, 1, 2, 3])):
+            x = rng.below(10)
+            if x < 4:
+                ops.append(["ns", rng.choice(cuts), rng.below(9)])
+            elif x < 6:
+                ops.append(["delns", rng.choice(cuts), 0])
+            elif x < 7:
+                ops.append(["delnode", rng.choice(cuts + [4, 5, 8]), 0])
+            elif x < 9:
+                ops.append([rng.choice(["txt", "a"]), rng.below(len(TREE)), rng.below(1000)])
+            else:
+                ops.append(["deltxt", rng.below(len(TREE)), 0])
+        txns.append(ops)
+    readers_at = sorted(set(rng.below(ntx) for _ in range(rng.range(1, 2))))
+    return {"kind": "immhist", "zone": zk, "txns": txns, "readers_at": readers_at, "keep_all": rng.chance(2, 3)}
+
+
+IMMHIST_BOUNDARY = [
+    # a cut created above existing names, untouched in that transaction (glue re-flagging path)
+    [[["txt", 1, 1], ["a", 2, 2], ["a", 3, 3], ["txt", 4, 4], ["a", 5, 5], ["txt", 9, 9]], [["ns", 1, 1]]],
+    # ... and removed again, by deleting the NS rdataset / the whole node
+    [[["txt", 1, 1], ["a", 2, 2], ["a", 3, 3], ["a", 5, 5]], [["ns", 1, 1]], [["delns", 1, 0]], [["ns", 1, 2]], [["delnode", 1, 0]]],
+    # nested cuts, NS below a cut, NS at the origin
+    [[["a", 2, 2], ["a", 3, 3], ["txt", 4, 4], ["a", 7, 7], ["a", 8, 8]], [["ns", 2, 1]], [["ns", 1, 1], ["ns", 0, 2]], [["delns", 1, 0]], [["ns", 6, 1], ["ns", 7, 1]]],
+]
+
+
 class Hang(Exception):
     pass
 
@@ -591,6 +888,8 @@ def eval_case(ctx: Ctx, case: dict):
             return eval_history(ctx, case)
         if case["kind"] == "immutability":
             return eval_immutability(ctx, case)
+        if case["kind"] == "immhist":
+            return eval_immhist(ctx, case)
     except Exception as e:  # noqa: BLE001 - e.g. the zone constructor itself raises (the initial version is pruned away)
         import traceback
 
@@ -727,6 +1026,10 @@ BOUNDARY = [
 
 
 def generate(ctx: Ctx, scale: int, rng):
+    for i in range(60 * scale):
+        c = gen_immhist(rng, "btree" if i % 3 else "versioned")
+        ctx.case(case_key(c), True, sample=c if i < 2 else None)
+        eval_case(ctx, c)
     for i in range(2000 * scale):
         zk = "versioned" if i % 2 == 0 else "btree"
         c = executable(gen_history(rng, zk))
@@ -750,6 +1053,13 @@ def run(ctx: Ctx):
             c = {"kind": "immutability", "zone": zk, "fresh": fresh, "extended": extended}
             ctx.case(case_key(c))
             eval_case(ctx, c)
+    for zk in ZONES:
+        for txns in IMMHIST_BOUNDARY:
+            for ra in ([0], [len(txns) - 2]):
+                c = {"kind": "immhist", "zone": zk, "txns": txns, "readers_at": ra, "keep_all": True}
+                ctx.case(case_key(c))
+                eval_case(ctx, c)
+                ctx.count("boundary.immhist")
     generate(ctx, 1 if ctx.tier == "quick" else 20, ctx.rng)
 
 
